@@ -29,6 +29,10 @@ def vectors(kind):
     if kind == "inline-only":
         # inlining stays on: a function with one call site is inlined, so no function region follows the main code
         return [dict(BASE), dict(BASE, compact=True), dict(BASE, original_code_as_comment=True), dict(BASE, generated_comments=False, remove_labels=True)]
+    if kind == "tco":
+        # tail-call optimisation with every calling convention / inlining choice (few vectors: more programs per second)
+        t = dict(BASE, tail_call_optimization=True)
+        return [dict(BASE), dict(t), dict(t, inline_functions=False), dict(t, use_push_pop_functions=True), dict(t, inline_functions=False, use_push_pop_functions=True)]
     if kind == "version":
         # the version note is appended to emitted text of every layout (comments on/off, source as comment, compact)
         v = {"append_version": True}
